@@ -21,7 +21,7 @@ from vf.pysym.loader import SymWorld
 
 PROPERTY = "C20"
 
-POS = [100, 200, 300, 400]
+POS = [100, 200, 300, 400, 500]
 
 
 class MemFS:
@@ -113,7 +113,7 @@ class AuxReports(SubCheck):
     sources = ["whatshap/cli/phase.py", "whatshap/pedigree.py", "whatshap/vcf.py", "whatshap/graph.py", "whatshap/merge.py"]
     stubs = ["VcfReader (yields VariantTables built by the harness)", "PhasedInputReader.read (returns harness-chosen read sets)", "readselection (identity)", "PedigreeDPTable (contract stub: arbitrary super reads, partition, transmission vector)", "PhasedVcfWriter (records calls, returns a harness-chosen list of GenotypeChange when genotypes are distrusted, none otherwise - C04/C01 justify that)", "open (in-memory file system in the symbolic run, scratch directory in the replay)", "whatshap.core data classes: vf/models/core_model.py in the symbolic run, the compiled module in the replay"]
     assumptions = ["the VCF writer reports exactly the genotype differences it made (C04) and none without --distrust-genotypes (C01/C05: trusted mode only permutes alleles)"]
-    required_cover = ["two chromosomes", "two families", "recombination event produced", "genotype change produced", "read list requested"]
+    required_cover = ["two chromosomes", "two families", "recombination event produced", "genotype change produced", "read list requested", "phase set nested inside another one"]
     hash_mode = "concretise"
 
     def shapes(self, tier):
@@ -124,10 +124,14 @@ class AuxReports(SubCheck):
             for fam in fams:
                 for distrust in (False, True):
                     out.append(dict(nchrom=nchrom, families=fam, distrust=distrust, nvar=3 if tier == "quick" else 4))
+        # five variants: room for a two-variant phase set nested inside the family's block (a recombination next to it must not be attributed to it)
+        out.append(dict(nchrom=1, families="trio", distrust=False, nvar=5))
+        if tier != "quick":
+            out.append(dict(nchrom=2, families="trio+single", distrust=True, nvar=5))
         return out
 
     def bounds(self, tier):
-        return "1-2 chromosomes x {single sample, trio, trio + unrelated single%s} x distrust on/off, %d variants per chromosome; per (chromosome, family): solver-chosen read incidence (2 patterns per sample), transmission vector pattern (constant / one change / two changes), partition bits, genotype-change subset; all three list options requested" % ("" if tier == "quick" else ", two singles", 3 if tier == "quick" else 4)
+        return "1-2 chromosomes x {single sample, trio, trio + unrelated single%s} x distrust on/off, %d variants per chromosome; per (chromosome, family): solver-chosen read incidence (2-4 patterns per sample group, with five variants including one that makes two variants a phase set of their own nested inside the other one), transmission vector pattern (constant / one change / two changes), partition bits, genotype-change subset; all three list options requested" % ("" if tier == "quick" else ", two singles", 3 if tier == "quick" else 4) + " (plus one single-chromosome trio shape with 5 variants%s)" % ("" if tier == "quick" else " and one 2-chromosome trio+single shape with 5 variants")
 
     def setup(self):
         from vf.models import core_model
@@ -256,9 +260,15 @@ class AuxReports(SubCheck):
                     rs = core.ReadSet()
                     # one solver-chosen pattern per chromosome for the family members, an own one for the unrelated single
                     grp = "fam" if sample in ("f", "m", "c") else sample
-                    pat = e.choice("reads_%s_%s" % (chromosome, grp), ["all", "split"] if grp == "fam" else ["all", "split", "none"])
                     pos = [v.position for v in variants]
-                    spans = {"all": [pos], "split": [pos[:2], pos[1:]] if len(pos) >= 3 else [pos], "none": []}[pat]
+                    pats = ["all", "split"] if grp == "fam" else ["all", "split", "none"]
+                    if len(pos) >= 5:
+                        # two variants linked only to each other: a phase set of its own nested inside the other one
+                        pats = pats + ["nested"]
+                    pat = e.choice("reads_%s_%s" % (chromosome, grp), pats)
+                    spans = {"all": [pos], "split": [pos[:2], pos[1:]] if len(pos) >= 3 else [pos], "none": [], "nested": [pos[:-3] + pos[-1:], pos[-3:-1]]}[pat]
+                    if pat == "nested":
+                        e.cover("phase set nested inside another one")
                     for k, sp in enumerate(spans):
                         if len(sp) < 2:
                             continue
